@@ -75,6 +75,13 @@ impl Checker for C09 {
         }
         let n = ex.calls_last;
         let mut seen = std::collections::BTreeSet::new();
+        // an explicit unmount() exists to report errors: with no handle alive, nothing may be left for the destructor
+        // of the file system to write (errors there can only be logged)
+        if matches!(op, Op::Remount) && ex.model_pre.fh.iter().all(Option::is_none) && ex.model_pre.dh.iter().all(Option::is_none) {
+            if let Some(r) = ex.log.iter().find(|r| r.kind == Kind::Write && r.in_drop) {
+                v.push(("C09/unmount-leaves-writes-to-the-destructor".into(), format!("fault-free unmount(): write of {} bytes at offset {} issued from a destructor", r.len, r.off)));
+            }
+        }
         // every position; only for operations that issue more than 3000 device calls (whole-FAT scans:
         // long runs of identical sequential reads) the middle is visited at a stride of 61
         let ks: Vec<u64> = if n <= 3000 { (1..=n).collect() } else { (1..=n).filter(|k| *k <= 800 || *k + 800 > n || *k % 61 == 0).collect() };
@@ -137,6 +144,8 @@ pub fn prefix(cs: u32) -> Vec<Op> {
         Op::CreateFile { base: r, path: "d/filler-name-2.txt".into(), keep: None },
         Op::CreateFile { base: r, path: "d/filler-name-3.txt".into(), keep: None },
         Op::CreateFile { base: r, path: "d/filler-name-4.txt".into(), keep: None },
+        // a directory that the explored part moves into d (the ancestor walk of rename reads d's "..")
+        Op::CreateDir { base: r, path: "e0".into(), keep: None },
     ]
 }
 
@@ -163,6 +172,7 @@ pub fn alphabet(cs: u32) -> Vec<Op> {
         Op::Rename { base: r, src: s("f"), dst_base: r, dst: s("g") },
         Op::Rename { base: r, src: s("long-file-name.txt"), dst_base: r, dst: s("d/moved-long-name.txt") },
         Op::Rename { base: r, src: s("d"), dst_base: r, dst: s("q") },
+        Op::Rename { base: r, src: s("e0"), dst_base: r, dst: s("d/e0") },
         Op::Read { h: 0, len: cs + 1 },
         Op::ReadExact { h: 0, len: 2 * cs },
         Op::Write { h: 0, len: 1 },
@@ -215,15 +225,69 @@ pub fn specs(tier: &str) -> Vec<ExpSpec> {
     for cfg in cfgs {
         v.push(ExpSpec::new(cfg, alphabet(512), if th { 3 } else { 2 }).with_prefix(prefix(512)));
     }
+    let r = DirRef::Root;
+    // the allocation scan of the FAULTED call wraps around: the session's first allocation with the hint near the end
+    // (first scan fails at the end of the table, the second one starts at cluster 2 and succeeds)
+    {
+        let mut c = low_cfg(32, true, "b32-low-hint-near-end-fresh");
+        c.name = "b32-low-hint-near-end-fresh".into();
+        let prefix = vec![Op::CreateFile { base: r, path: "f".into(), keep: Some(0) }, Op::CreateFile { base: r, path: "d-x".into(), keep: Some(1) }];
+        v.push(ExpSpec::new(c, alphabet(512), if th { 2 } else { 1 }).with_prefix(prefix));
+    }
+    // completely full volumes with the running hint above cluster 2: both scans of a faulted allocation run and fail
+    for w in [16u8, 32] {
+        let c = full_cfg(w, &format!("b{w}-full"));
+        let prefix = vec![Op::CreateFile { base: r, path: "f".into(), keep: Some(0) }, Op::WriteAll { h: 0, len: 3 * 512 }, Op::CreateFile { base: r, path: "d-x".into(), keep: Some(1) }];
+        v.push(ExpSpec::new(c, alphabet(512), if th { 2 } else { 1 }).with_prefix(prefix));
+    }
+    // FAT32 whose free count is unknown: stats() recounts the whole table (fault positions strided)
+    {
+        let mut c = low_cfg(32, false, "b32-low-nocount");
+        if let Base::Bytes(img) = &*c.base {
+            let mut img = img.clone();
+            vol::set_fsinfo(&mut img, Some(0xFFFF_FFFF), None);
+            c.base = Arc::new(Base::Bytes(img));
+        }
+        v.push(ExpSpec::new(c, vec![Op::Stats, Op::CreateFile { base: r, path: "n".into(), keep: None }, Op::Remount], 1));
+    }
     v
+}
+
+/// builder-made volume with exactly three free clusters (the lowest ones)
+fn full_cfg(width: u8, name: &str) -> Cfg {
+    let mut s = MkSpec::new(width);
+    if width == 32 {
+        s.reserved = 8;
+    }
+    let mut b = Builder::new(s);
+    let first = if width == 32 { 3 } else { 2 };
+    let keep: Vec<u32> = (first..first + 3).collect();
+    b.ballast(&keep);
+    b.set_fsinfo(keep.len() as u32, 0xFFFF_FFFF);
+    let mut cands = keep.clone();
+    if width == 32 {
+        cands.push(2);
+    }
+    vol::cfg_from(name, b.finish(), Some(cands))
 }
 
 /// format_volume under fault enumeration (not a session operation): returns violations
 pub fn format_faults(ctr: &Counters) -> Vec<(String, String, String)> {
     let mut out = Vec::new();
+    type Mk = Box<dyn Fn() -> fatfs::FormatVolumeOptions>;
+    let mut cases: Vec<(String, usize, Mk)> = Vec::new();
     for (name, total, ft) in [("fmt12", 64u32, FatType::Fat12), ("fmt16", 4300, FatType::Fat16), ("fmt32", 70000, FatType::Fat32)] {
-        let base = Arc::new(Base::Bytes(vec![0u8; total as usize * 512]));
-        let mk = || fatfs::FormatVolumeOptions::new().fat_type(ft).bytes_per_cluster(512).total_sectors(total);
+        cases.push((name.into(), total as usize * 512, Box::new(move || fatfs::FormatVolumeOptions::new().fat_type(ft).bytes_per_cluster(512).total_sectors(total))));
+    }
+    // option-dependent I/O paths: size taken from the storage, a volume label entry, sectors larger than 512 bytes
+    // (zero-filling to the end of the boot / information sectors), a single FAT copy
+    cases.push(("fmt12-size-from-storage".into(), 64 * 512 + 100, Box::new(|| fatfs::FormatVolumeOptions::new())));
+    cases.push(("fmt16-label".into(), 4300 * 512, Box::new(|| fatfs::FormatVolumeOptions::new().fat_type(FatType::Fat16).bytes_per_cluster(512).total_sectors(4300).volume_label(*b"DATA LABEL ").volume_id(7))));
+    cases.push(("fmt12-4096".into(), 64 * 4096, Box::new(|| fatfs::FormatVolumeOptions::new().bytes_per_sector(4096).bytes_per_cluster(4096).total_sectors(64).fats(1))));
+    cases.push(("fmt32-label-size-from-storage".into(), 70000 * 512, Box::new(|| fatfs::FormatVolumeOptions::new().fat_type(FatType::Fat32).bytes_per_cluster(512).volume_label(*b"DATA LABEL "))));
+    for (name, len, mk) in cases {
+        let name = name.as_str();
+        let base = Arc::new(Base::Bytes(vec![0u8; len]));
         let (st, mut dev) = new_dev(&base);
         st.borrow_mut().arm(None, None);
         if fatfs::format_volume(&mut dev, mk()).is_err() {
